@@ -286,6 +286,36 @@ def rule_binder_shadowing(ctx):
                       detail={"former": V, "component": comp, "filtered_by": bpath})
 
 
+def rule_type_traversals(ctx):
+    """substitution, hole resolution, final normalisation and the support collector reach every component of every type former"""
+    from .. import trav
+    rule = "type-traversals"
+    ctx.rule(rule, "the structural passes over types -- subst_env (definitions), subst_absts (instantiation), resolve_holes (inferred "
+                   "solutions), filled_norm_id (final normal forms) and TypeSupportCollector::visit (which witnesses / holes a type "
+                   "mentions: the escape check of existentials) -- hand every TypeId component bound by the arm of a former to the "
+                   "pass: a component that is skipped keeps a variable that should have been replaced, or hides a witness from the "
+                   "escape check")
+    NZ = "zydeco_statics::normalize::"
+
+    def disp(h, env):
+        ms = [m for m in H.walk(h["body"]) if H.kind(m) == "Match" and not m.get("src")
+              and re.search(r"syntax::Type$", H.strip_refs(m["scrut"].get("ty") or ""))]
+        return max(ms, key=lambda m: len(m["arms"])) if ms else None
+    n = 0
+    for fn, fam, extra in (
+            (NZ + "<impl zydeco_statics::syntax::TypeId>::subst_env", r"::subst_env$", {}),
+            (NZ + "<impl zydeco_statics::syntax::TypeId>::subst_absts", r"::subst_absts$", {}),
+            (NZ + "<impl zydeco_statics::syntax::TypeId>::resolve_holes", r"HoleResolver::resolve$|::resolve_holes$", {}),
+            (NZ + "<impl zydeco_statics::syntax::TypeId>::filled_norm_id", r"::filled_norm_id$", {}),
+            (NZ + "TypeSupportCollector::visit", r"TypeSupportCollector::visit$", {"rest_ok": {"ManifestKind": "binder and definition are a kind pattern and a kind: no type component"}})):
+        if fn not in ctx.facts.bodies():
+            ctx.anchor_lost(rule, fn + " not found")
+            continue
+        n += trav.check_traversal(ctx, rule, fn, fam, r"statics::syntax::TypeId\b", label=fn.split("::")[-1], dispatch=disp,
+                                  allow_default=True, **extra)
+    ctx.floor(rule, "type components handed to their pass", n, 90)
+
+
 def rule_shape_assumptions(ctx):
     """the term judgment may destructure a type without a diagnostic only where it has just forced that shape"""
     rule = "shape-assumptions"
@@ -348,6 +378,7 @@ def run(ctx):
     c01.rule_declaration_lookup(ctx)
     rule_binder_shadowing(ctx)
     rule_shape_assumptions(ctx)
+    rule_type_traversals(ctx)
     ctx.rule("normalisation", "type-level beta-normalisation performs the audited steps: an application is unfolded into its whole "
                               "left-associated spine, the head AND every argument of the spine are normalised, abstractions consume "
                               "their arguments by substitution (fused when the whole head chain is abstractions), a stuck head keeps "
